@@ -146,6 +146,44 @@ def run(ctx):
                     ctx.fail('diffusion_stencil_2d/%s/not-consistent' % typ,
                              'stencil applied to %s gives %r, -div K grad u gives %r' % (nm, got, want), dcase)
                     break
+    # ---------------- 3-D rotated anisotropic diffusion (FD): the documented operator is -div D grad u with D = Q A Q^T,
+    # Q = Rpsi Rtheta Rphi, A = diag(1, epsy, epsz); a second-order stencil is exact on quadratics
+    from pyamg.gallery.diffusion import diffusion_stencil_3d
+    for t3 in range(12 if not ctx.thorough else 60):
+        epsy, epsz = rng.choice([1.0, 0.1, 0.01, 5.0]), rng.choice([1.0, 0.25, 0.001, 3.0])
+        th, ph, ps = (0.0, 0.0, 0.0) if t3 == 0 else (rng.uniform(-3, 3), rng.uniform(-3, 3), rng.uniform(-3, 3))
+        if t3 == 1:
+            ph = ps = 0.0
+        case3 = dict(epsilony=epsy, epsilonz=epsz, theta=th, phi=ph, psi=ps, type='FD')
+        ctx.mark(case3)
+        try:
+            st3 = np.asarray(diffusion_stencil_3d(epsilony=epsy, epsilonz=epsz, theta=th, phi=ph, psi=ps, type='FD'), dtype=float)
+        except Exception as e:   # noqa
+            ctx.fail('diffusion_stencil_3d/raises', repr(e), case3)
+            continue
+        ctx.case(('diffusion3d', epsy, epsz, th, ph, ps), True)
+        ctx.count('diffusion3d')
+
+        def rot(a, axis):
+            c_, s_ = np.cos(a), np.sin(a)
+            return np.array([[c_, s_, 0], [-s_, c_, 0], [0, 0, 1.0]]) if axis == 'z' else np.array([[1.0, 0, 0], [0, c_, s_], [0, -s_, c_]])
+        Q3 = rot(ps, 'z') @ rot(th, 'x') @ rot(ph, 'z')
+        D3 = Q3 @ np.diag([1.0, epsy, epsz]) @ Q3.T
+        idx3 = np.array([-1.0, 0.0, 1.0])
+        X, Y, Z = np.meshgrid(idx3, idx3, idx3, indexing='ij')
+        scale3 = 1 + max(epsy, epsz)
+        if st3.shape != (3, 3, 3) or abs(st3.sum()) > 1e-12 * scale3:
+            ctx.fail('diffusion_stencil_3d/sum-not-zero', 'shape %r sum %.3g' % (st3.shape, st3.sum()), case3)
+            continue
+        for nm, mono, want in (('x', X, 0.0), ('y', Y, 0.0), ('z', Z, 0.0),
+                               ('xx', X * X, -2 * D3[0, 0]), ('yy', Y * Y, -2 * D3[1, 1]), ('zz', Z * Z, -2 * D3[2, 2]),
+                               ('xy', X * Y, -(D3[0, 1] + D3[1, 0])), ('xz', X * Z, -(D3[0, 2] + D3[2, 0])),
+                               ('yz', Y * Z, -(D3[1, 2] + D3[2, 1]))):
+            got = float((st3 * mono).sum())
+            if not abs(got - want) <= 1e-12 * scale3:
+                ctx.fail('diffusion_stencil_3d/not-consistent' + ('/mixed-derivative' if len(nm) == 2 and nm[0] != nm[1] else ''),
+                         'stencil applied to %s gives %r, -div D grad u gives %r' % (nm, got, want), case3)
+                break
     dh = ('From Coq Require Import ZArith List PrimFloat.\nImport ListNotations.\n'
           'Require Import PV.Base.Ops PV.Model.DiffusionRun.\n')
     bad, errs = cq.run_cases('c20d', dh, 'diff_case', 'diff_chk', dcases)
